@@ -54,6 +54,21 @@ extern "C"
     static char vp_last_error[512];
     const char *vp_error() { return vp_last_error; }
 
+    // the configuration struct is passed by pointer and lives across the sentences of one `run`
+    // call in the Cython glue: whatever parse_sentence writes into it must be seen by the next call
+    static config vp_cfg_after;
+    void vp_cfg_get(unsigned *num_tags, float *unary_penalty, float *beta, int *use_beta,
+                    unsigned *pruning_size, unsigned *nbest, unsigned *max_step)
+    {
+        *num_tags = vp_cfg_after.num_tags;
+        *unary_penalty = vp_cfg_after.unary_penalty;
+        *beta = vp_cfg_after.beta;
+        *use_beta = vp_cfg_after.use_beta ? 1 : 0;
+        *pruning_size = vp_cfg_after.pruning_size;
+        *nbest = vp_cfg_after.nbest;
+        *max_step = vp_cfg_after.max_step;
+    }
+
     // returns the status of parse_sentence, or -1 when a C++ exception escaped
     int vp_parse_sentence(float *tag_scores, float *dep_scores, unsigned length,
                           const unsigned *roots, unsigned nroots,
@@ -72,21 +87,24 @@ extern "C"
         cfg.pruning_size = pruning_size;
         cfg.nbest = nbest;
         cfg.max_step = max_step;
+        int status;
         try
         {
-            return (int)parse_sentence(tag_scores, dep_scores, length, root_set, binary_callback,
-                                       unary_callback, finalizer, scaffold, finalizer_args,
-                                       static_cast<cache_type *>(cache), &cfg);
+            status = (int)parse_sentence(tag_scores, dep_scores, length, root_set, binary_callback,
+                                         unary_callback, finalizer, scaffold, finalizer_args,
+                                         static_cast<cache_type *>(cache), &cfg);
         }
         catch (const std::exception &e)
         {
             std::strncpy(vp_last_error, e.what(), sizeof(vp_last_error) - 1);
-            return -1;
+            status = -1;
         }
         catch (...)
         {
             std::strncpy(vp_last_error, "unknown C++ exception", sizeof(vp_last_error) - 1);
-            return -1;
+            status = -1;
         }
+        vp_cfg_after = cfg;
+        return status;
     }
 }
